@@ -1,7 +1,8 @@
 /-
 C13 — witnesses: clauses of the property that are false of the current code, refuted on a concrete
 input of the model (each is replayed on the real implementation by `py/props/c13.py`, see
-`known_findings.txt`).
+`known_findings.txt`), and REGRESSION theorems: the inputs of the repaired findings (`fixed:` lines) with
+the now-correct behaviour (the same inputs run on the real code in the `regressions` section).
 -/
 import WpModel.Model.ReplacedDoc
 import WpModel.Model.RasterEmbed
@@ -21,14 +22,14 @@ theorem in_flow_ratio_only_fills_containing_block :
     (inlineReplacedWH true ratioOnly ⟨200, false⟩ plainBox).toOption.map (fun b => (b.width, b.height)) =
       some (some 200, some 100) := by decide +kernel
 
-/-- Absolutely positioned, containing block at x = 40 of width 200 (`absolute_replaced` passes the
-tuple `(cb_x, cb_y, cb_width, cb_height)` and `block_level_width` reads `[0]`): the used width is the
-x-coordinate 40, not 200 — and 0 when the containing block starts at x = 0. -/
-theorem abs_replaced_ratio_only_uses_cb_x :
+/-- REGRESSION (finding `abs-replaced-ratio-only-width`, fixed by a8f8a59).  Absolutely positioned,
+containing block at x = 40 of width 200: `absolute_replaced` now passes `(cb_width, cb_height)`, so the
+used width is 200 as in flow (it was the x-coordinate 40 — and 0 for a containing block at x = 0). -/
+theorem abs_replaced_ratio_only_fills_containing_block :
     (absoluteReplacedWH true ratioOnly 40 0 200 300 plainBox).toOption.map (fun b => (b.width, b.height)) =
-      some (some 40, some 20) ∧
+      some (some 200, some 100) ∧
     (absoluteReplacedWH true ratioOnly 0 0 200 300 plainBox).toOption.map (fun b => (b.width, b.height)) =
-      some (some 0, some 0) := by
+      some (some 200, some 100) := by
   constructor <;> decide +kernel
 
 open Wp.RasterEmbed in
@@ -42,12 +43,15 @@ theorem grey16_embedded_as_rgb8 :
   constructor <;> decide +kernel
 
 open Wp.RasterEmbed in
-/-- A CMYK TIFF (and `PA`, `F`): the PNG re-encoding raises OSError, which the image loader does not
-catch (known finding `unwritable-mode-crash`). -/
-theorem unwritable_mode_raises :
+/-- REGRESSION (finding `unwritable-mode-crash`, fixed by d7dc388).  A CMYK TIFF (and `PA`, `F`): the PNG
+re-encoding inside `RasterImage.__init__` still raises OSError, but `get_image_from_uri` now turns it
+into a loading error: the image is *not loaded* (`None`, alternative text rendered) and rendering goes on. -/
+theorem unwritable_mode_not_loaded :
     (rasterInit ⟨.CMYK, false, .other, false, false, true⟩ ⟨false, false⟩).toOption = none ∧
-    (rasterInit ⟨.PA, false, .other, false, false, true⟩ ⟨false, false⟩).toOption = none := by
-  constructor <;> decide +kernel
+    loadRaster ⟨.CMYK, false, .other, false, false, true⟩ ⟨false, false⟩ = none ∧
+    loadRaster ⟨.PA, false, .other, false, false, true⟩ ⟨false, false⟩ = none ∧
+    loadRaster ⟨.F, false, .other, false, false, true⟩ ⟨false, false⟩ = none := by
+  refine ⟨?_, ?_, ?_, ?_⟩ <;> decide +kernel
 
 /-- `background: url(10px tile) 300px 0 no-repeat repeat` on a 50px-wide box: the image is placed at
 x = 300, outside the box, and must not be visible; the pattern steps by `max(10, 2·50) = 100` on the
@@ -61,12 +65,13 @@ theorem no_repeat_axis_wraps :
   · constructor <;> decide +kernel
 
 open Wp.ImageOrient in
-/-- `image-orientation: 90deg` on the two-pixel image `[A B]`: css-images-3 rotates to the right (A on top);
-`rotate_pillow_image` uses Pillow's `ROTATE_90`, a quarter turn to the LEFT (B on top)
-(known finding `image-orientation-rotates-ccw`). -/
-theorem orientation_quarter_turn_is_ccw :
-    (rotatePillow (Img.ofRows 0 [[10, 20]]) (.turn 90 false)).1.rows = [[20], [10]] ∧
-    (cssOrient (Img.ofRows 0 [[10, 20]]) 90 false).rows = [[10], [20]] := by
-  constructor <;> decide +kernel
+/-- REGRESSION (finding `image-orientation-rotates-ccw`, fixed by e4e2f8c).  `image-orientation: 90deg` on
+the two-pixel image `[A B]`: css-images-3 rotates to the right (A on top), and so does
+`rotate_pillow_image` now (`ROTATE_270` of Pillow, which turns counter-clockwise); `270deg` puts B on top. -/
+theorem orientation_quarter_turn_is_clockwise :
+    (rotatePillow (Img.ofRows 0 [[10, 20]]) (.turn 90 false)).1.rows = [[10], [20]] ∧
+    (cssOrient (Img.ofRows 0 [[10, 20]]) 90 false).rows = [[10], [20]] ∧
+    (rotatePillow (Img.ofRows 0 [[10, 20]]) (.turn 270 false)).1.rows = [[20], [10]] := by
+  refine ⟨?_, ?_, ?_⟩ <;> decide +kernel
 
 end Wp.C13.Witness
